@@ -164,17 +164,23 @@ def make_after_step(rng):
                     return {"differs": ["content_disposition: " + hp[0]], "got": got, "suggested": suggested}
                 state.setdefault("headers", set()).add(got.get("content_disposition"))
             else:
+                # which job's progress is shown - judged by content, never by the wording of a message
                 st = got.get("status")
                 src = want["source"]
-                real_src = ("fetched" if st == {"status": "data fetched. waiting for render process.."}
-                            else "none" if not st else "info")
-                exp = {"render": "info", "makezip": "info", "fetched": "fetched", "none": "none"}[src]
-                if real_src != exp:
-                    return {"differs": ["status.progress source writer=%s spec=%s" % (w, src)], "got": got}
-                if src in ("render", "makezip"):
-                    j = d.wq.id2job.get(REAL_ID[w if src == "render" else "mk"])
-                    if j is None or st != j.info:
-                        return {"differs": ["status.progress shows the wrong job's info writer=%s" % w], "got": got}
+                rj = d.wq.id2job.get(REAL_ID[w])
+                zj = d.wq.id2job.get(REAL_ID["mk"])
+                if src == "none":
+                    if st:
+                        return {"differs": ["status.progress shows something although neither job has progress writer=%s" % w], "got": got}
+                elif src == "render":
+                    if rj is None or st != rj.info:
+                        return {"differs": ["status.progress is not the render job's own info writer=%s" % w], "got": got}
+                elif src == "makezip":
+                    if zj is None or st != zj.info:
+                        return {"differs": ["status.progress is not the fetch job's info writer=%s" % w], "got": got}
+                else:   # "fetched": the fetch job is finished, rendering has no progress of its own yet
+                    if not st or (zj is not None and zj.info and st == zj.info) or (rj is not None and rj.info and st == rj.info):
+                        return {"differs": ["status.progress does not say that fetching is over writer=%s" % w], "got": got}
         return None
 
     return after_step, result_hook, state
